@@ -1,2 +1,43 @@
-(* C14 theta part -- being written *)
-From DS Require Import Base.Prelude Model.Theta Model.ThetaCodec Spec.ThetaLayout.
+(* C14, theta part -- malformed bytes: the modelled reader (the REPAIRED code) is total, never
+   reaches a modelled panic site for ANY byte string, returns only usable values, and what it
+   returns is justified by the input length.  Statements only; proofs in Proofs/ThetaCodec.v.
+
+   Modelled panic sites ([Stuck]): the asserts / `unreachable!()` of pack_bits_block and
+   unpack_bits_block (width outside 1..=63, block length), index out of bounds and shift >= 64 in
+   BitPacker / BitUnpacker, `entry - previous` underflow in compute_entry_bits / serialize_v4. *)
+From DS Require Import Base.Prelude Base.BitExp Model.Theta Model.ThetaCodec Spec.ThetaLayout.
+From DS Require Import Proofs.ThetaCodec.
+Open Scope N_scope.
+
+(* dec_total_no_stuck *)
+Theorem c14_theta_never_stuck :
+  forall sh bs, bytes_lt bs -> c_deserialize sh bs <> Stuck.
+Proof. exact deserialize_never_stuck. Qed.
+
+(* dec_ok_wf + dec_alloc_linear: entries in (0, theta), theta in [1, 2^63-1], ascending when it says
+   ordered; at most 8 * |input| entries (64 bytes of u64 per input byte at one bit per entry) *)
+Theorem c14_theta_ok_is_usable :
+  forall sh bs c, bytes_lt bs -> c_deserialize sh bs = Ok c ->
+  c_safe c /\ (length (ce_entries c) <= 8 * length bs)%nat.
+Proof. exact deserialize_ok_safe. Qed.
+
+(* wf_ops_safe: a usable value re-serializes both ways without reaching a panic site (D12) *)
+Theorem c14_theta_usable_reserializes :
+  forall c, c_safe c -> exists bs, c_serialize_compressed c = Ok bs.
+Proof. exact safe_serializable. Qed.
+
+(* non-vacuity: the inputs that made the unrepaired crate panic or abort are rejected *)
+Example c14_theta_example :
+  (* D14: entry_bits 0 with 8 entries; 9 entry-count bytes *)
+  c_deserialize 12345 [1; 4; 3; 0; 1; 26; 57; 48; 8] = Err /\
+  c_deserialize 12345 [1; 4; 3; 10; 9; 26; 57; 48; 0; 0; 0; 0; 0; 0; 0; 0; 0] = Err /\
+  (* D12: ORDERED with unsorted entries [200; 100] *)
+  c_deserialize 12345 ([2; 3; 3; 0; 0; 26; 57; 48; 2; 0; 0; 0; 0; 0; 0; 0] ++ le_bytes 8 200 ++ le_bytes 8 100) = Err /\
+  (* theta = 0 *)
+  c_deserialize 12345 [3; 3; 3; 0; 0; 26; 57; 48; 0; 0; 0; 0; 0; 0; 0; 0; 0; 0; 0; 0; 0; 0; 0; 0] = Err /\
+  (* a count of 2^32-1 entries with 8 bytes of payload *)
+  c_deserialize 12345 ([2; 3; 3; 0; 0; 10; 57; 48; 255; 255; 255; 255; 0; 0; 0; 0] ++ le_bytes 8 5) = Err /\
+  (* and a valid image is accepted *)
+  c_deserialize 12345 ([2; 3; 3; 0; 0; 26; 57; 48; 2; 0; 0; 0; 0; 0; 0; 0] ++ le_bytes 8 100 ++ le_bytes 8 200)
+    = Ok (mkC [100; 200] MAX_THETA 12345 true false).
+Proof. vm_compute. repeat split; reflexivity. Qed.
